@@ -458,3 +458,42 @@ Proof.
   - unfold exact_match. destruct s as [|x s]; [reflexivity|].
     rewrite !(starts_loop_mlen _ _ 0) by lia. rewrite Hm. reflexivity.
 Qed.
+
+(* ---------- ExactMatch on a literal dictionary ---------- *)
+
+Lemma spec_starts_min s : forall D k, spec_starts D s = Some k ->
+  forall w b, w <> [] -> s = w ++ b -> D w = true -> (S k <= length w)%nat.
+Proof.
+  induction s as [|c s IH]; intros D k H w b Hne E Hw; [discriminate|].
+  cbn in H. destruct (D [c]) eqn:Ec.
+  - inversion H. destruct w; [congruence | cbn; lia].
+  - destruct (spec_starts (fun w => D (c :: w)) s) as [k'|] eqn:E'; [|discriminate]. inversion H. subst k.
+    destruct w as [|x w]; [congruence|]. inversion E; subst.
+    destruct w as [|y w]; [congruence|].
+    pose proof (IH _ _ E' (y :: w) b ltac:(discriminate) eq_refl Hw). cbn [length] in *. lia.
+Qed.
+
+Lemma exact_match_literal t s : literal (root t) -> is_end (root t) = false ->
+  exact_match t s = true <->
+  terminal (root t) s = true /\
+  forall w b, w <> [] -> b <> [] -> s = w ++ b -> terminal (root t) w = false.
+Proof.
+  intros Hl He. unfold exact_match. destruct s as [|x s].
+  - split; [discriminate|]. intros [H _]. rewrite terminal_nil in H. congruence.
+  - assert (Hune : x :: s <> []) by discriminate. remember (x :: s) as u eqn:Equ. clear Equ.
+    rewrite (starts_loop_literal u (root t) 0 Hl He).
+    destruct (spec_starts (terminal (root t)) u) as [k|] eqn:E.
+    + destruct (spec_starts_some _ _ _ E) as [w [b [Hu [Hlen Hw]]]].
+      assert (Hlu : length u = (length w + length b)%nat) by (rewrite Hu, app_length; reflexivity).
+      rewrite Z.eqb_eq. split.
+      * intros Hk. assert (length b = O) by lia. destruct b; [|discriminate].
+        rewrite app_nil_r in Hu. subst w. split; [exact Hw|].
+        intros w' b' Hne' Hb' Hu'. destruct (terminal (root t) w') eqn:T; [|reflexivity].
+        pose proof (spec_starts_min _ _ _ E w' b' Hne' Hu' T).
+        assert (0 < length b')%nat by (destruct b'; [congruence | cbn; lia]).
+        rewrite Hu', app_length in Hlen. lia.
+      * intros [Hs Hp]. destruct b as [|y b]; [cbn in Hlu; lia|].
+        rewrite (Hp w (y :: b)) in Hw; [discriminate | destruct w; [discriminate | discriminate] | discriminate | exact Hu].
+    + split; [intros H; apply Z.eqb_eq in H; destruct u; [congruence | cbn [length] in H; lia]|]. intros [Hs _].
+      rewrite (spec_starts_none _ _ E u [] Hune (eq_sym (app_nil_r u))) in Hs. discriminate.
+Qed.
